@@ -36,6 +36,8 @@ var noopPkgs = []string{
 	"go.uber.org/zap",
 	"github.com/0chain/common/core/logging",
 	"0chain.net/core/metric",
+	"0chain.net/core/viper",
+	"github.com/spf13/viper",
 	"log",
 }
 
